@@ -188,7 +188,25 @@ func vfcrigRestore(ctx context.Context, snap map[string][]byte) *vfcfbCore {
 type vfcrigOpts struct {
 	DeleteDelay time.Duration
 	Lister      string // concurrent | recursive
+	// NoFetcherCache: every sync uses a fresh real MetaFetcher (same filter instances), i.e. every sync reads every meta.json
+	// again, as a fetcher does whose cache was busted or that does not cache at all (Syncer takes any block.MetadataFetcher).
+	NoFetcherCache bool
 }
+
+// vfcrigFreshFetcher is a block.MetadataFetcher that delegates every Fetch to a newly built real MetaFetcher.
+type vfcrigFreshFetcher struct {
+	mk func() (*block.MetaFetcher, error)
+}
+
+func (f *vfcrigFreshFetcher) Fetch(ctx context.Context) (map[ulid.ULID]*metadata.Meta, map[ulid.ULID]error, error) {
+	mf, err := f.mk()
+	if err != nil {
+		return nil, nil, err
+	}
+	return mf.Fetch(ctx)
+}
+
+func (f *vfcrigFreshFetcher) UpdateOnChange(func([]metadata.Meta, error)) {}
 
 type vfcrigCompactor struct {
 	sy        *Syncer
@@ -227,7 +245,12 @@ func vfcrigNewCompactor(ctx context.Context, set vfcrigSet, o vfcrigOpts, syncBk
 		duplicateBlocksFilter,
 		noCompactMarkerFilter,
 	}
-	cf := base.NewMetaFetcher(nil, filters)
+	var cf block.MetadataFetcher = base.NewMetaFetcher(nil, filters)
+	if o.NoFetcherCache {
+		cf = &vfcrigFreshFetcher{mk: func() (*block.MetaFetcher, error) {
+			return block.NewMetaFetcher(logger, 1, insSync, lister, "", nil, filters)
+		}}
+	}
 	cnt := func() prometheus.Counter { return prometheus.NewCounter(prometheus.CounterOpts{Name: "vfcrig"}) }
 	sy, err := NewMetaSyncer(logger, reg, mutBkt, cf, duplicateBlocksFilter, ignoreDeletionMarkFilter, cnt(), cnt(), 0)
 	if err != nil {
